@@ -57,7 +57,7 @@ SPEC = dict(
           "stdlib.NewECALFunctionAdapter (every numeric parameter kind echoing its argument, string/bool/list/map, "
           "interface and foreign parameter types, several parameters, zero-arg constants of every result kind incl. "
           "2^53 / MaxUint64, trailing error nil/non-nil/not last, six panicking bodies, variadic of several kinds, "
-          "defined types of primitive kind (time.Duration style) as parameter and result, two non-functions) + 12 plugin functions (util.ECALPluginFunction: returning values, errors, panicking on a missing / NULL / wrong-kind argument, explicit panic, nil-map write, nil dereference) registered through the real stdlib.AddStdlibPluginFunc / LoadStdlibPlugin via the package's pluginTestLookup hook + every function of the generated stdlib (enumerated from GetStdlibSymbols) x all "
+          "defined types of primitive kind (time.Duration style) as parameter and result, results that are slices / arrays / maps of Go numbers ([]int, [2]uint8, [][]int, []time.Duration, map[string]int, map[int8]float32, map[string][]int, also through interface{} and in a multi-result), two non-functions) + 12 plugin functions (util.ECALPluginFunction: returning values, errors, panicking on a missing / NULL / wrong-kind argument, explicit panic, nil-map write, nil dereference) registered through the real stdlib.AddStdlibPluginFunc / LoadStdlibPlugin / LoadStdlibPlugins (with one definition whose symbol is missing: exactly that one must be reported) via the package's pluginTestLookup hook + every function of the generated stdlib (enumerated from GetStdlibSymbols) x all "
           "argument vectors over a 42-value universe (28 core values + 14 further numbers) {null,true,false,0,-1,1,1.5,127,128,255,256,2^31,2^53,1e300,NaN,"
           "'','a','1',[],[1],{},{'a':1},an ECAL function,-129,-0.5,2^63,-Inf,1.5*2^63 | 40000,2^31-1,65536,2^32,2^64,-2^31-1,-2^63,0.1,2^24+1,3.4028235677973366e38 (rounds to +Inf in float32),+Inf,-0.0,1e-40 (float32 subnormal),1e-46 (underflows)}: Run called directly for length <=2 "
           "over the whole universe and (thorough) length 3 over the core values exhaustively, 3 / 4,5 sampled, through the interpreter (arguments as ECAL literals "
@@ -81,7 +81,7 @@ SPEC = dict(
         "panic(nil): with go >= 1.21 semantics it is an ordinary panic (*runtime.PanicNilError); in a binary whose main module declares go < 1.21 (GODEBUG panicnil=1; /repo's go.mod says go 1.12) recover() returns nil — modelled as BodyOut.panicNil and run under both settings",
         "float32 conversion: Num.toF32 is IEEE round-to-nearest-even with subnormals, overflow and signed zero; proved exact for representable values (float32_exact_when_representable), the rounding itself is tied by the correspondence run (0.1, 2^24+1, 2^31-1, MaxFloat32+, 1e-40, 1e-46)",
         "the go/ast extractor of three source facts (harness C19 -tool, go/cmd/harness/c19extract.go), decided semantically and three-valued: Run defers a function (literal or same-package) that itself calls recover() and assigns the named error result; the argument count is compared with NumIn() before Call (Run or one level of helpers); plugin functions are registered as ECALFunctionAdapter. Only a refuted fact breaks an obligation; an unestablished one is assumed, noted, and answered with an amplified search",
-        "the harness sets stdlib.pluginTestLookup (unexported test hook) by go:linkname",
+        "the harness sets stdlib.pluginTestLookup (unexported test hook) by go:linkname; a real plugin (.so built with -buildmode=plugin, opened by plugin.Open) cannot be built in the offline sandbox (needs cgo and the plugin toolchain; the harness is built with CGO_ENABLED=0), so plugin.Open itself and the symbol lookup of a real shared object are not exercised — everything after the lookup (type assertion to util.ECALPluginFunction, wrapping, registration, calls) is",
         "out-of-range float->integer conversion is implementation-defined in Go: the platform's value is handed to the model as an oracle and no exactness theorem covers it",
         "interpreter/rt_identifier.go executeFunction: the Debugger hooks (VisitStepInState / VisitStepOutState) are not attached in the runs and not modelled; rerr.Type = err for iterator error texts is not modelled",
         "bodies of the generated stdlib (math.*) are assumed not to panic (checked by every run); math.jn/math.yn with |order| > 256 are left out (slow bodies)",
@@ -102,7 +102,7 @@ META = dict(
                 "call runs the function; numbers whose truncation is in range arrive as exactly that Go integer for every integer kind (fractions "
                 "truncated), float64 unchanged, float32 IEEE-rounded (proved exact when representable); results whose STATIC type is numeric — and "
                 "numbers inside a result declared as interface{} (every plugin function) — come back as ECAL numbers, integers exactly up to 2^53, "
-                "for every position of a multi-result; a trailing error is delivered as the call's error, nil as none; whatever kind of error value "
+                "for every position of a multi-result (NOT numbers nested in returned slices / maps: known finding); a trailing error is delivered as the call's error, nil as none; whatever kind of error value "
                 "comes back (typed nil, panicking Error(), nil *RuntimeError), executeFunction yields a value or a catchable runtime error. "
                 "Totality itself (no panic escapes Run / the interpreter) is NOT a consequence of the model of reflect: it is Go's defer/recover "
                 "semantics plus the regenerated source facts (recover shape, completion flag for panic(nil), guarded Error()/AddTrace, plugin "
@@ -111,9 +111,13 @@ META = dict(
     level_note=("Trusted: Lean kernel + propext/Classical.choice/Quot.sound; the model of reflect's checks; the extractor; the harness; Go's defer/recover and "
                 "GODEBUG panicnil semantics. Out-of-range float->int conversions are implementation-defined and only covered by totality. The theorems "
                 "describe /repo WITH fixes/C19-error-value-after-recover.patch, C19-panic-nil.patch and C19-iface-result-numbers.patch; on a tree without "
-                "them the check reports the three defects (findings/C19-defect-E1/E2/E3-*.json). Still passed through raw by the code (not covered by the "
-                "'delivered as ECAL numbers' clause as proved): numbers nested in returned slices/maps ([]int, []interface{}{1,int8(2)}), complex numbers. "
-                "Limitations proved as theorems, each answered with an error: parameters of interface type — including plain interface{} — reject every "
+                "them the check reports the three defects (findings/C19-defect-E1/E2/E3-*.json). KNOWN FINDING nested-result-numbers: a result that is a slice / array / map of Go values ([]int, [2]uint8, map[string]int — declared so or "
+                "through interface{}) is passed to ECAL raw: not a container for ECAL at all, its numbers unconverted (proved about the code as it is: "
+                "nested_results_are_passed_raw; those cases carry kf= and spec= what the property demands). The candidate repair "
+                "fixes/C19-nested-result-numbers.patch (convert such results into ECAL lists / maps) is NOT applied: it would break Go->Go round trips "
+                "through ECAL that work today (a raw []string result of one bridged function handed to a []string parameter of another; []byte results "
+                "handed back), because the adapter's parameter check compares types for identity. Also passed on raw, by design: Go numbers a function "
+                "has put INTO a []interface{} / map[interface{}]interface{}, complex numbers, struct fields. Limitations proved as theorems, each answered with an error: parameters of interface type — including plain interface{} — reject every "
                 "argument; a variadic ...interface{} function (plugins) accepts at most one variadic argument; numeric variadics (...int, ...float64) and "
                 "parameters of a defined numeric type (time.Duration) accept no number. Mode R's reference semantics (Ecal.Reentry) is a specification; "
                 "the evidence that resolveFunction follows it is the differential run only."),
